@@ -115,7 +115,7 @@ func pppoeStateName(s *pppoe.Server) string {
 // after the Ethernet header.
 func pppoeServerTarget(name string, etherType uint16, build func(*rapid.T) *bld, consts [][]byte, avoid func([]byte) []byte, avoidSigs []string) {
 	register(&target{
-		name: name,
+		name: name, nsel: 2, avoid: avoid, avoidSigs: avoidSigs,
 		run: func(data []byte, c *caseInfo) {
 			sel, payload := split(data, 2)
 			state := int(sel[0]) % len(srvStates)
@@ -281,6 +281,12 @@ func (f *fsm) drive(want string) {
 	}
 }
 
+// onePool is an IPPoolAllocator that always hands out 10.9.0.2.
+type onePool struct{}
+
+func (onePool) Allocate(string) net.IP { return net.ParseIP("10.9.0.2") }
+func (onePool) Release(string)         {}
+
 func newFSM(kind string, cfgSel byte) *fsm {
 	send := func(uint16, []byte) {}
 	log := zap.NewNop()
@@ -307,6 +313,8 @@ func newFSM(kind string, cfgSel byte) *fsm {
 		cfg.LocalIP = net.ParseIP("10.9.0.1")
 		if cfgSel&1 == 0 {
 			cfg.PeerIP = net.ParseIP("10.9.0.2")
+		} else {
+			cfg.IPPool = onePool{} // address assigned from a pool at Up() instead of statically
 		}
 		if cfgSel&2 != 0 {
 			cfg.PrimaryDNS, cfg.SecondaryDNS = net.ParseIP("10.9.0.1"), net.ParseIP("8.8.8.8")
@@ -328,7 +336,7 @@ func newFSM(kind string, cfgSel byte) *fsm {
 // case layout: [0] automaton state selector, [1] configuration selector, rest = control packet.
 func fsmTarget(name, kind string, proto int, consts [][]byte, avoid func([]byte) []byte, avoidSigs []string) {
 	register(&target{
-		name: name,
+		name: name, nsel: 2, avoid: avoid, avoidSigs: avoidSigs,
 		run: func(data []byte, c *caseInfo) {
 			sel, pkt := split(data, 2)
 			want := fsmStates[int(sel[0])%len(fsmStates)]
@@ -416,6 +424,7 @@ func authTarget(name string, proto uint16, build func(*rapid.T) *bld, good []byt
 	register(&target{
 		name:  name,
 		group: "auth", // both targets can reach receivePAP and receiveCHAP (a peer may answer with the other protocol)
+		nsel:  2, avoid: fixAuthLen, avoidSigs: []string{sigPAP, sigCHAP},
 		run: func(data []byte, c *caseInfo) {
 			sel, pkt := split(data, 2)
 			cfg := pppoe.DefaultAuthConfig()
@@ -452,9 +461,7 @@ func authTarget(name string, proto uint16, build func(*rapid.T) *bld, good []byt
 			p := genPacket(rt, build, consts)
 			if vstat.IsListed(sigPAP) || vstat.IsListed(sigCHAP) {
 				if rapid.IntRange(0, 9).Draw(rt, "keepKFShape") > 0 {
-					if len(p) >= 4 && binary.BigEndian.Uint16(p[2:4]) < 4 {
-						p[2], p[3] = 0, 4
-					}
+					p = fixAuthLen(p)
 				} else {
 					lastGenClass += "+kf-shape"
 				}
@@ -472,6 +479,14 @@ func authTarget(name string, proto uint16, build func(*rapid.T) *bld, good []byt
 			return o
 		},
 	})
+}
+
+// fixAuthLen: a PAP/CHAP length field below the header size is raised to it.
+func fixAuthLen(p []byte) []byte {
+	if len(p) >= 4 && binary.BigEndian.Uint16(p[2:4]) < 4 {
+		p[2], p[3] = 0, 4
+	}
+	return p
 }
 
 const (
@@ -493,12 +508,12 @@ func init() {
 // ---------------------------------------------------------------------------
 
 func TestPropPPPoEParsers(t *testing.T) {
-	runProp(t, 12000, 240000, "pppoe.ParsePPPoEHeader", "pppoe.ParseTags", "pppoe.ParseLCPPacket", "pppoe.ParseLCPOptions", "pppoe.ParsePADT", "pppoe.ParseEchoPacket")
+	runProp(t, 9000, 180000, "pppoe.ParsePPPoEHeader", "pppoe.ParseTags", "pppoe.ParseLCPPacket", "pppoe.ParseLCPOptions", "pppoe.ParsePADT", "pppoe.ParseEchoPacket")
 }
-func TestPropPPPoEDiscovery(t *testing.T) { runProp(t, 5000, 100000, "pppoe-discovery") }
-func TestPropPPPoESession(t *testing.T)   { runProp(t, 5000, 100000, "pppoe-session") }
-func TestPropLCP(t *testing.T)            { runProp(t, 6000, 120000, "lcp-fsm") }
-func TestPropIPCP(t *testing.T)           { runProp(t, 6000, 120000, "ipcp-fsm") }
-func TestPropIPV6CP(t *testing.T)         { runProp(t, 6000, 120000, "ipv6cp-fsm") }
-func TestPropAuthPAP(t *testing.T)        { runProp(t, 6000, 120000, "auth-pap") }
-func TestPropAuthCHAP(t *testing.T)       { runProp(t, 6000, 120000, "auth-chap") }
+func TestPropPPPoEDiscovery(t *testing.T) { runProp(t, 4000, 80000, "pppoe-discovery") }
+func TestPropPPPoESession(t *testing.T)   { runProp(t, 4000, 80000, "pppoe-session") }
+func TestPropLCP(t *testing.T)            { runProp(t, 5000, 100000, "lcp-fsm") }
+func TestPropIPCP(t *testing.T)           { runProp(t, 5000, 100000, "ipcp-fsm") }
+func TestPropIPV6CP(t *testing.T)         { runProp(t, 5000, 100000, "ipv6cp-fsm") }
+func TestPropAuthPAP(t *testing.T)        { runProp(t, 5000, 100000, "auth-pap") }
+func TestPropAuthCHAP(t *testing.T)       { runProp(t, 5000, 100000, "auth-chap") }
